@@ -727,8 +727,11 @@ func (b *BaseStore) LoadFromSnapshot(ctx context.Context) error {
 			entries = append(entries, &entry.Entry{Hash: h})
 		}
 
-		if err := b.Sync(ctx, entries); err != nil {
-			return fmt.Errorf("unable to sync queued CIDs: %w", err)
+		// only the hashes were saved: there is nothing to verify before they are
+		// fetched (Sync would dereference the identity they do not carry), the
+		// fetched entries are verified when they are joined
+		if len(entries) > 0 {
+			go b.Replicator().Load(ctx, entries)
 		}
 	}
 
